@@ -628,6 +628,8 @@ def realise_thdiv(item):
     b_, q_ = ufl.split(v)
     dX = dx(metadata=custom_md(cell, item["th"].get("rule", 0)))
     form = (inner(div(a_), div(b_)) + inner(p_, q_) + inner(a_, b_)) * dX
+    if item["th"].get("coupled"):
+        form = form + (inner(p_, div(b_)) + 2 * inner(div(a_), q_)) * dX      # off-diagonal blocks of the mixed space
     return {"form": form, "exact_ok": True, "case": item["th"]}
 
 
